@@ -27,6 +27,36 @@ NOT_APPLICABLE = {p: 'check under construction in this session; not claimed unti
                   for p in ['C%02d' % i for i in range(1, 21)]}
 
 PROPS = {
+    'C18': dict(
+        claimed=True,
+        level='exploration',
+        level_text="Generated connect histories (scripted outcome per attempt, requests in every phase) against the real client; the "
+                   "first packet, the clean-session bit, the ordering relative to CONNACK and resend, the error class of each "
+                   "failed attempt and the wait/ErrDown rule per phase are checked from the event log. Sampling of histories.",
+        technique='stateful property-based testing (rapid) with scripted Dialer/CONNACK outcomes; reference decoder and phase model as oracle',
+        rule="rapid state machine over {attempt(ok | dial-error | refuse(code 1..255, flag byte) | raw malformed/truncated CONNACK | "
+             "EOF | write fault at any byte of CONNECT | read fault at any byte of CONNACK | held handshake with 1-3 requests "
+             "issued meanwhile, then accept/refuse), pub0/1/2, sub, ping, releaseAcks, breakNow, armWrite, parkResend, appStep} over "
+             "Config combinations (clean session, keep-alive, user/password/will). Non-trivial: a failed attempt followed by an "
+             "accepted connection, or requests issued during a held handshake; distinct canonical scripts.",
+        assumptions=ASSUME_SIM,
+        quick=dict(engines=[rapid('^TestC18', 1600, steps=40)]),
+        thorough=dict(engines=[rapid('^TestC18', 40000, shards=14, steps=70, timeout=1500)]),
+    ),
+    'C05': dict(
+        claimed=True,
+        level='exploration',
+        level_text="Generated histories with sequential and concurrently bursting publisher goroutines, parked at store, write and "
+                   "hook gates, under the connection faults of C01; order and DUP rules are invariants over the per-connection "
+                   "packet sequences and the Persistence operation log. Schedules are explored at gate granularity only.",
+        technique='stateful property-based testing (rapid) with gate-controlled schedules; wire-order and DUP invariants over the event log',
+        rule="C01 action set plus burst(n=2..6 goroutines, levels, gate in {none, submit.locked, submit.enqueued, store Save, "
+             "conn Write}) with in-flight windows from {1,2,3,5,16,64}. Non-trivial: a connection carried two or more "
+             "retransmissions (>= 2 in flight at a reconnect) or a concurrent burst ran; distinct canonical scripts.",
+        assumptions=ASSUME_SIM,
+        quick=dict(engines=[rapid('^TestC05', 1600, steps=40)]),
+        thorough=dict(engines=[rapid('^TestC05', 40000, shards=14, steps=70, timeout=1500)]),
+    ),
     'C01': dict(
         claimed=True,
         level='exploration',
@@ -66,6 +96,7 @@ PROPS = {
 
 # --- pure checks (checks_conf_pure.py): C20 final; C14B and C15P are temporary entries for the pure halves of C14/C15 ---
 from checks_conf_pure import C20, C14B_ENGINES_QUICK, C14B_ENGINES_THOROUGH, C14B_RULE, C15_ENGINES_QUICK, C15_ENGINES_THOROUGH, C15_RULE  # noqa: E402
+C20['claimed'] = True
 PROPS['C20'] = C20
 PROPS['C14B'] = dict(level='exploration', level_text='temporary entry: pure half of C14 (classifiers)', technique='property-based testing (rapid), differential against errors.Is', rule=C14B_RULE, assumptions=[], quick=dict(engines=C14B_ENGINES_QUICK), thorough=dict(engines=C14B_ENGINES_THOROUGH))
 PROPS['C15P'] = dict(level='exploration', level_text='temporary entry: pure half of C15 (record codec)', technique='property-based testing (rapid) with per-record exhaustive single-byte damage', rule=C15_RULE, assumptions=[], quick=dict(engines=C15_ENGINES_QUICK), thorough=dict(engines=C15_ENGINES_THOROUGH))
